@@ -83,6 +83,8 @@ func workspace(base string) {
 	w("c/sub/util.go", "package sub\n\nfunc utilC(IN int) int { return IN }\n")
 	// positions after //line directives (generated code): all front-ends must print the adjusted position
 	w("e/gen.go", "package e\n\nfunc before(IN int) int { return IN }\n\n//line greet.tmpl:40\nfunc after(IN int, xs []int) int {\n\tif len(xs) >= 0 {\n\t\tIN = IN + 1\n\t}\n\treturn IN\n}\n\n/*line other.y:7:3*/ func third(IN int) int { return IN }\n")
+	// diagnostics whose text contains '%' (quoted code, fmt verbs): must be forwarded verbatim by every front-end
+	w("f/pct.go", "package f\n\nimport \"fmt\"\n\nfunc Q(s string, x int) (string, bool) {\n\treturn fmt.Sprintf(\"\\\"%s\\\"\", s), !(x%2 != 0)\n}\n")
 	w("d/d.go", "package d\n\nimport \"strings\"\n\nfunc D(s string) bool { return strings.Index(s, \"x\") >= 0 }\n\nfunc E(t []int) []int { return t[:] }\n")
 }
 
@@ -95,6 +97,12 @@ func Run(tier string, seed int64, outDir string) *common.Meta {
 	workspace(base)
 	bin := common.BinDir()
 	env := common.GoEnv()
+	// a module whose go.mod declares an old language version: no front-end may derive a target version from it
+	legacy := filepath.Join(outDir, "ws_legacy")
+	os.RemoveAll(legacy)
+	defer os.RemoveAll(legacy)
+	common.WriteFile(filepath.Join(legacy, "go.mod"), "module legacy\n\ngo 1.12\n")
+	common.WriteFile(filepath.Join(legacy, "l.go"), "package legacy\n\nimport \"time\"\n\nconst Perm = 0755\n\nfunc M(t time.Time, IN int) int64 { return t.Unix()/1000 + int64(IN) }\n")
 
 	configs := []config{
 		{"defaults", nil, nil, nil},
@@ -187,6 +195,31 @@ func Run(tier string, seed int64, outDir string) *common.Meta {
 				}
 				caseLines = append(caseLines, fmt.Sprintf("  (%s, %s, %s)", coqfmt.List(ws), coqfmt.StrList(keys(outs["go-critic"])), coqfmt.StrList(keys(outs["go-critic-analysis"]))))
 				idxLines = append(idxLines, "config "+c.name)
+			}
+		}
+	}
+	for _, c := range configs[:2] {
+		outs := map[string][]string{}
+		for _, exe := range []string{"go-critic", "gocritic", "go-critic-analysis", "gocritic-analysis"} {
+			var args []string
+			if strings.HasSuffix(exe, "-analysis") {
+				args = append(append([]string(nil), c.an...), "./...")
+			} else {
+				args = append(append([]string{"check", "-shorterErrLocation=false"}, c.cli...), "./...")
+			}
+			out, _, err := common.Run(240*time.Second, legacy, env, filepath.Join(bin, exe), args...)
+			runs++
+			if err != nil {
+				meta.Fail("C08/"+exe+"/run", err.Error(), args)
+				continue
+			}
+			ds, _ := parseLines(out)
+			outs[exe] = keys(ds)
+		}
+		for _, exe := range []string{"gocritic", "go-critic-analysis", "gocritic-analysis"} {
+			if strings.Join(outs[exe], "\n") != strings.Join(outs["go-critic"], "\n") {
+				missing, extra := diff(outs["go-critic"], outs[exe])
+				meta.Fail("C08/"+exe+"/differs-on-old-go-directive", fmt.Sprintf("module with 'go 1.12' in go.mod, config %q: %s reports %d diagnostics, go-critic %d; missing: %v; extra: %v", c.name, exe, len(outs[exe]), len(outs["go-critic"]), head(missing, 3), head(extra, 3)), map[string]interface{}{"config": c.name, "go.mod": "go 1.12"})
 			}
 		}
 	}
